@@ -191,6 +191,14 @@ def run(ctx):
                             m = fec.bits_to_int(sel[i])
                             exprs.append("c09_link %s %s %s %s %s %s" % (cnat(n), fec.cNl(gs), fec.cNl(hs), fec.cNl(rs), cN(e), cN(m)))
                             meta.append(("link", cname, m))
+                    if dname == "BruteForceMLDecoder" and gs is not None and blocks == 1 and k <= 8 and len(exprs) < 400:
+                        for i in rng.sample(range(len(pats)), min(4, len(pats))):
+                            e = 0
+                            for p in pats[i]:
+                                e |= 1 << p
+                            m = fec.bits_to_int(sel[i])
+                            exprs.append("c09_link_ml %s %s %s %s" % (cnat(k), fec.cNl(gs), cN(e), cN(m)))
+                            meta.append(("link", cname, m))
                 # 3. every symbol displaced by less than half the minimum distance
                 nsym = n * blocks // b
                 xin = x[rng.sample(range(len(rows)), min(len(rows), 24))]
